@@ -422,6 +422,11 @@ func standingAssumptions(p *Program, fns []string) []string {
 		if c.Trusted {
 			out = append(out, "trusted contract (body not verified): "+n)
 		}
+		for _, cl := range c.Ensures {
+			if cl.Assumed && c.Kind == "func" && !c.Trusted {
+				out = append(out, "assumed model clause (given to callers, not checked against the body): "+n+": "+clauseName(cl)+": "+cl.Text)
+			}
+		}
 	}
 	for _, a := range p.CS.Axioms {
 		if !a.Lemma {
